@@ -323,6 +323,13 @@ class PrintrunWriter(BaseWriter):
         """Callback to handle errors reported by printrun."""
 
         self._logger.error("Error: %s", message)
+
+        # Error lines sent by the device are also reported by printrun,
+        # but they were already handled by `_on_device_message`
+
+        if message.strip().lower().startswith(ERROR_PREFIXES):
+            return
+
         self._device_error = DeviceError(message)
         self._ack_event.set()
 
